@@ -648,9 +648,24 @@ class Function:
             for d in n.get("decls", []):
                 t = d.get("type", "")
                 ct = d.get("ctype", t)
-                if d.get("dk") != "Var" or d.get("init", -1) < 0 or d.get("static"):
+                if d.get("dk") != "Var" or d.get("static"):
                     continue
                 is_new = known is not None and self.file.startswith(REPO) and (tag + d.get("name", "")) not in known
+                def_node = i            # where the value is defined: the declaration, or — for `T v; ... v = e;` — the single assignment
+                init = d.get("init", -1)
+                lhs_of_def = -1
+                if init < 0:
+                    if not is_new:
+                        continue
+                    asg = [x for x in self.walk() if self.nodes[x]["k"] == "BinaryOperator" and self.nodes[x].get("op") == "=" and
+                           self.nodes[self.strip(self.nodes[x]["ch"][0])]["k"] == "DeclRefExpr" and
+                           self.nodes[self.strip(self.nodes[x]["ch"][0])]["decl"].get("id") == d["id"] and
+                           self.nodes[self.strip(self.nodes[x]["ch"][0])]["decl"].get("kind") == "Var"]
+                    if len(asg) != 1 or not self._value_unused(asg[0]):
+                        continue
+                    def_node = asg[0]
+                    init = self.nodes[asg[0]]["ch"][1]
+                    lhs_of_def = self.strip(self.nodes[asg[0]]["ch"][0])
                 if is_new:
                     # a local that the pinned tree does not have (a later refactoring introduced it): any scalar or pointer with a
                     # side-effect-free initialiser that is never assigned again and whose address is not taken
@@ -661,6 +676,8 @@ class Function:
                     for x in self.walk():
                         m = self.nodes[x]
                         tgt = None
+                        if x == def_node and lhs_of_def >= 0:
+                            continue
                         if m["k"] in ("BinaryOperator", "CompoundAssignOperator") and m.get("op", "").endswith("=") and m["op"] not in ("==", "!=", "<=", ">="):
                             tgt = self.strip(m["ch"][0])
                         elif m["k"] == "UnaryOperator" and m.get("op") in ("++", "--", "&"):
@@ -669,7 +686,7 @@ class Function:
                             touched = True
                     if touched:
                         continue
-                    names = self._pure_names(d["init"])
+                    names = self._pure_names(init)
                     if names is None:
                         continue
                 else:
@@ -680,20 +697,20 @@ class Function:
                         continue
                 if pos is None:
                     pos = self.node_positions()
-                if i not in pos:
+                if def_node not in pos:
                     continue
                 uses = [x for x in self.walk() if self.nodes[x]["k"] == "DeclRefExpr" and self.nodes[x]["decl"].get("id") == d["id"]
-                        and self.nodes[x]["decl"].get("kind") == "Var"]
+                        and self.nodes[x]["decl"].get("kind") == "Var" and x != lhs_of_def]
                 ok = bool(uses)
                 for u in uses:
                     pu = pos.get(u)
-                    if pu is None or self._writes_between(names, pos[i], pu, pos):
+                    if pu is None or self._writes_between(names, pos[def_node], pu, pos):
                         ok = False
                         break
                 if not ok:
                     continue
                 for u in uses:
-                    c = self._copy_subtree(d["init"])
+                    c = self._copy_subtree(init)
                     un = self.nodes[u]
                     un["aliasOf"] = d["name"]
                     un["k"] = "ParenExpr"
